@@ -916,7 +916,14 @@ func doCheck(prop *Property, tier string, seed uint64, runsOverride int, only st
 		samples = append(samples, "no sample recorded by harness")
 	}
 	// vacuity guards declared per property (e.g. C01: fault-free runs must produce positive answers)
+	ran := map[string]bool{}
+	for _, hr := range results {
+		ran[hr.h.Name] = true
+	}
 	for _, g := range prop.MustBePositive {
+		if hn, _, _ := strings.Cut(g, "/"); !ran[hn] {
+			continue // harness deselected with --harness
+		}
 		if counters[g] == 0 {
 			infra("vacuous batch: counter %s is zero", g)
 		}
